@@ -8,14 +8,15 @@ RULE = (
     "of best-so-far, rewards summing to initial - best, visited_time == visiting order. Drivers: (a) ALL moves admitted by "
     "the env's move mask from a state (2-opt: every ordered pair; ruin-repair: every (pair, first, second)) for states "
     "reached by random chains, plus one further random move from every successor; (b) the env's own random-move sampler "
-    "over chains of 40-120 steps with step_to_solution jumps; (c) the bundled DACT / NeuOpt / N2S policies (untrained, "
+    "over chains of 40-120 steps with step_to_solution jumps (back to the own best tour, and onto the best tour of an "
+    "independent second search of the same instance, which is sometimes strictly better); (c) the bundled DACT / NeuOpt / N2S policies (untrained, "
     "sampling) stepping the env. Non-trivial = distinct (tour before, move, tour after) transitions"
 )
 ASSUMPTIONS = [
     "lengths compared within 1e-4 relative (float32 env vs float64 reference); reward within 1e-5",
     "policies are untrained small networks (embed 32, 1 layer): near-uniform move distributions over the moves their own masks admit",
 ]
-REQUIRED_COUNTERS = ["episodes", "c09_transitions", "c09_exhaustive_moves", "c09_policy_steps", "c09_step_to_solution", "c09_improving_steps", "c09_non_improving_after_improvement"]
+REQUIRED_COUNTERS = ["episodes", "c09_transitions", "c09_exhaustive_moves", "c09_policy_steps", "c09_step_to_solution", "c09_step_to_better_solution", "c09_improving_steps", "c09_non_improving_after_improvement"]
 MIN_NONTRIVIAL = {"quick": 30000, "thorough": 300000}
 WORKERS = {"quick": 14, "thorough": 16}
 BUDGET_S = {"quick": 500, "thorough": 3000}
@@ -42,10 +43,10 @@ def cases(tier, seed):
             if k > n - 2:
                 continue
             for r in range(6 if q else 30):
-                out.append(dict(kind="sampler", cfg=dict(env="tsp_kopt", n=n, k=k), B=16, s=rnd.randrange(10**6), steps=40 if q else 120, to_best_every=rnd.choice([0, 7, 13])))
+                out.append(dict(kind="sampler", cfg=dict(env="tsp_kopt", n=n, k=k), B=16, s=rnd.randrange(10**6), steps=40 if q else 120, to_best_every=rnd.choice([0, 7, 13]), jump_every=rnd.choice([0, 5, 9])))
         ne = n + (n % 2)
         for r in range(6 if q else 30):
-            out.append(dict(kind="sampler", cfg=dict(env="pdp_ruin_repair", n=ne), B=16, s=rnd.randrange(10**6), steps=40 if q else 120, to_best_every=rnd.choice([0, 7, 13])))
+            out.append(dict(kind="sampler", cfg=dict(env="pdp_ruin_repair", n=ne), B=16, s=rnd.randrange(10**6), steps=40 if q else 120, to_best_every=rnd.choice([0, 7, 13]), jump_every=rnd.choice([0, 5, 9])))
     # (c) policies
     for n in ((6, 10, 20) if q else (5, 6, 8, 10, 20, 50)):
         for r in range(5 if q else 25):
